@@ -18,7 +18,7 @@ from .common import declare_cells, declare_edges, nested, zsum, product_indices
 OPS_1D = [
     # (name, expected) expected: "ok" | exception name | "maybe" (depends on the symbolic state, decided in the oracle)
     "fill", "fill_n", "fill_n_empty", "iadd_same", "isub_le", "imul_pos", "idiv_pos", "merge2", "set_float", "normalize_inplace",
-    "iadd_diffbins", "isub_diffbins", "iadd_scalar", "iadd_list", "iadd_none", "isub_any", "imul_any", "imul_hist", "filln_wshape_f16", "filln_wshape_f32", "set_err_shape", "idiv_any", "idiv_hist", "imul_list", "idiv_zero_list",
+    "iadd_diffbins", "isub_diffbins", "iadd_scalar", "iadd_list", "iadd_none", "isub_any", "imul_any", "imul_hist", "filln_wshape_f16", "filln_wshape_f32", "set_err_shape", "idiv_any", "filln_w_same_size_other_shape", "filln_w_count_of_non_nan", "idiv_hist", "imul_list", "idiv_zero_list",
     "filln_wshape", "filln_w2d", "fill_badweight", "fill_nonscalar", "dtype_str", "dtype_complex", "dtype_small", "merge_frac", "merge_axis", "getitem_range",
     "set_freq_shape", "set_freq_negative", "set_err_negative", "find_bin_array",
 ]
@@ -120,6 +120,8 @@ class C18Step1D(_Base):
                         if op in ("fill_n_empty",):
                             continue
                         yield f"{subject}-{first}+{op}", dict(subject=subject, ops=[first, op])
+        yield "1d-adaptive-iadd_adaptive_other", dict(subject="1d-adaptive", ops=["iadd_adaptive_other"])
+        yield "1d-adaptive-iadd_adaptive_other+fill", dict(subject="1d-adaptive", ops=["iadd_adaptive_other", "fill"])
 
     def declare(self, cx, p):
         kind = "real" if p["subject"] == "1d-float" else "int"
@@ -155,6 +157,18 @@ class C18Step1D(_Base):
             return mk(x["f"], errors2=np.asarray(x["q"], dtype=dt)), mk(x["g"])
         mk = lambda vals, **kw: H1(np.asarray(x["e"]), np.asarray(vals, dtype=dt), **kw)  # noqa: E731
         return mk(x["f"], errors2=np.asarray(x["q"], dtype=dt), underflow=x["u"], overflow=x["o"]), mk(x["g"], underflow=x["gu"], overflow=x["go"])
+
+    def _shifted(self, E, p, x):
+        """An adaptive operand over a range shifted by 3 bins (built once per path)."""
+        if getattr(self, "_shifted_cache", (None, None))[0] is x:
+            return self._shifted_cache[1]
+        np = E.np
+        H1 = E.mod("physt.histogram1d").Histogram1D
+        FWB = E.mod("physt.binnings").FixedWidthBinning
+        dt = float if p["subject"] == "1d-float" else int
+        o = H1(FWB(bin_width=1.0, bin_count=2, bin_times_min=x["t"] + 3, adaptive=True), np.asarray(x["g"], dtype=dt))
+        self._shifted_cache = (x, o)
+        return o
 
     def _call(self, E, p, x, h, g, op):
         """-> (expected, thunk, other)"""
@@ -200,6 +214,7 @@ class C18Step1D(_Base):
         H2 = E.mod("physt.histogram_nd").Histogram2D
         table = {
             "isub_diffbins": (("ValueError", "RuntimeError") if p["subject"] != "1d-adaptive" else "maybe", isub(other_bins), other_bins),
+            "iadd_adaptive_other": ("maybe", iadd(self._shifted(E, p, x)), "shifted"),
             "fill": ("ok", lambda: h.fill(v, w), None),
             "fill_n": ("ok", lambda: h.fill_n(np.asarray([v, v]), weights=np.asarray([w, 1])), None),
             "fill_n_empty": ("maybe", lambda: h.fill_n(np.asarray([], dtype=float)), None),
@@ -224,6 +239,8 @@ class C18Step1D(_Base):
             "filln_wshape_f16": ("ValueError", lambda: h.fill_n(np.asarray([v, v]), weights=np.asarray([1.5], dtype="float16"), dropna=False), None),
             "filln_wshape_f32": ("ValueError", lambda: h.fill_n(np.asarray([v, v]), weights=np.asarray([1.5], dtype="float32"), dropna=False), None),
             "filln_w2d": ("ValueError", lambda: h.fill_n(np.asarray([v, v]), weights=np.asarray([[1, 1], [1, 1]])), None),
+            "filln_w_same_size_other_shape": ("ValueError", lambda: h.fill_n(np.asarray([v, v, v, v]), weights=np.asarray([[1, 1], [1, 1]])), None),
+            "filln_w_count_of_non_nan": ("ValueError", lambda: h.fill_n(np.asarray([v, float("nan"), v]), weights=np.asarray([1, 1])), None),
             "fill_badweight": (("ValueError", "TypeError"), lambda: h.fill(v, "heavy"), None),
             "fill_nonscalar": (("ValueError", "TypeError"), lambda: h.fill([v, v]), None),
             "dtype_str": (("ValueError", "TypeError"), setattr_("dtype", "str"), None),
@@ -243,9 +260,11 @@ class C18Step1D(_Base):
 
     def drive(self, E, p, x):
         h, g = self._make(E, p, x)
-        steps = []
+        steps, seen = [], []
         for op in p["ops"]:
             expect, thunk, other = self._call(E, p, x, h, g, op)
+            if other == "shifted":
+                other = self._shifted(E, p, x)
             if steps and steps[0]["op"] in ("merge2", "fill", "fill_n") and op in ("iadd_same", "set_freq_shape", "merge2"):
                 # the first step changed the bin layout (merge / adaptive growth): whether the operand still has the same bins, or a
                 # 3-element array still has the wrong shape, depends on the state - the outcome is not fixed by the call alone
@@ -253,8 +272,12 @@ class C18Step1D(_Base):
             before = full(E, h)
             ob = full(E, other) if other is not None else None
             r = E.attempt(thunk)
+            if other is not None and not any(other is o for o in seen):
+                seen.append(other)
             steps.append({"op": op, "expect": expect, "outcome": r.name if isinstance(r, Raised) else "ok", "before": before, "after": full(E, h),
-                          "other_before": ob, "other_after": full(E, other) if other is not None else None})
+                          "other_before": ob, "other_after": full(E, other) if other is not None else None,
+                          # every operand used so far, re-inspected after this step (the cross-cutting snapshot obligations apply to them)
+                          "operands_so_far": [full(E, o) for o in seen]})
         return {"steps": steps}
 
     def oracle(self, cx, p, x, obs):
